@@ -184,6 +184,26 @@ def fam_polygon(ctx, shape, fr_name, tier, seed):
     ctx.outcome('ok')
 
 
+def fam_polygon_m1m2(ctx, axis):
+    """two triangles that differ only in one vertex coordinate, -1 in one and -2 in the other (the other vertices are shared and carry a
+    solver parameter).  The exact-real run uses the perfect-hash model and must say "unequal"; CPython has hash(-1) == hash(-2) (ints and
+    floats, hence tuples of them), which the float replay of the path witnesses sees: polygon == is a hash comparison."""
+    e = [tuple(F(1) if i == j else F(0) for i in range(3)) for j in range(3)]
+    a, b, c = e[axis], e[(axis + 1) % 3], e[(axis + 2) % 3]
+    h = ctx.param('h', -3, 3)
+    ctx.assume(Or(And(h >= F(1, 4), h <= 1), h <= -F(1, 4)))      # (both triangles non-degenerate: collinear at h = 2 and h = 3/2)
+    B_ = R.affine(a, (h, b))                 # a + h b: both triangles lie in the coordinate plane spanned by a and b
+    C_ = b
+    T1 = ConvexPolygon((pt(ctx, R.vscale(F(-1), a)), pt(ctx, B_), pt(ctx, C_)))
+    T2 = ConvexPolygon((pt(ctx, R.vscale(F(-2), a)), pt(ctx, B_), pt(ctx, C_)))
+    for x, y in ((T1, T2), (T2, T1)):
+        st, r = call(lambda: x == y)
+        if st == 'raise':
+            ctx.fail('C08:ConvexPolygon == raises %s' % exc_sig(r), repr(r))
+        ctx.require(not bool(r), 'C08:triangles differing in one vertex coordinate -1 vs -2 compare equal (polygon == is hash equality and CPython hash(-1) == hash(-2))')
+    ctx.outcome('ok')
+
+
 def fam_polyhedron(ctx, shape, fr_name, tier, seed):
     rng = random.Random(seed)
     K = B.body(shape, fr_name)
@@ -221,6 +241,8 @@ def families(tier, seed):
     for sh, fr in ([('tri', 'axis'), ('quad', 'oblique'), ('penta', 'axis'), ('quad', 'yz45')] if tier == 'quick' else
                    [(s, f) for s in ('tri', 'quad', 'penta', 'hexa') for f in ('axis', 'oblique', 'pyth3', 'yz45')]):
         fams.append(Family('polygon/%s@%s' % (sh, fr), fam_polygon, (sh, fr, tier, seed), must_reach=('ok',)))
+    for axis in range(3):
+        fams.append(Family('polygon-differ/-1vs-2/axis%d' % axis, fam_polygon_m1m2, (axis,), must_reach=('ok',)))
     for sh, fr in ([('tetra', 'axis'), ('cube', 'axis')] if tier == 'quick' else
                    [(s, f) for s in ('tetra', 'cube', 'prism', 'pyramid') for f in ('axis', 'oblique')]):
         fams.append(Family('polyhedron/%s@%s' % (sh, fr), fam_polyhedron, (sh, fr, tier, seed), must_reach=('ok',), budget_s=300 if tier == 'quick' else 1500))
@@ -247,6 +269,6 @@ META = dict(
                 'the "different sets => unequal" direction is claimed for Point, Vector, Line, Plane, Segment, HalfLine and for a changed polygon vertex'),
     technique='symbolic execution of real code over exact reals (z3 QF_NRA), all paths; structural hash model',
     bounds=dict(parameters='3-5 reals in [-3,3]', polygons='3-5 (6 thorough) vertices', polyhedra='tetra, cube (+prism, pyramid thorough)'),
-    outside_claim=['genuine hash collisions', 'int/float/Fraction coordinate type mixtures (concrete types are not a solver question)', 'IEEE rounding'],
+    outside_claim=['hash collisions other than the systematic CPython one hash(-1) == hash(-2), which the polygon-differ/-1vs-2 families replay concretely', 'int/float/Fraction coordinate type mixtures (concrete types are not a solver question)', 'IEEE rounding'],
     assumptions=['perfect-hash abstraction', 'near-miss displacements >= 1e-2'],
 )
